@@ -44,6 +44,8 @@ CFG = DC.Config("C05", ["FMINDEX", "XBW"], make_cmds, components=[gen_fm, Sub(ge
                      "both the ID stream (each ID once) and the string stream are drained. Non-trivial = a substring query; "
                      "distinct by (kind, params, S, command).")
 
+CFG.fm_text_residues = [31, 0, 1, 30, 63 % 32, 15, 31]
+
 
 def check(run, tier, seed, replay):
     run.assumptions = ["FM-index backward search / LF walk: see Properties files for what is proved about the abstract FM model; "
